@@ -5,6 +5,13 @@ import os
 VERIF = os.path.dirname(os.path.dirname(os.path.abspath(__file__)))
 
 CHECKS = {
+    "C17": dict(
+        technique="TLA+ spec of the debug-dump round trip (DumpReplay.tla: Snapshot/Restore, Reads(stage)); TLC exhaustive (MC_DumpReplay incl. dropped-component and hazard configs); DumpTrace.tla validation of real runs: the archive is produced by the real CLI --debug path and then genotyped again",
+        text="TLC shows that SameResult follows from RestoreIsSnapshotInverse and that omitting any dump component changes a result; for simulated samples (indels, structures, several solutions, parameters, profile options, multi-gene archives) and NA10860 (thorough) the evidence restored from the real archive is compared field by field with the evidence of the original run and the two results/outputs are compared.",
+        design_ref="DESIGN.md §4 C17",
+        note="Trusted: TLC, harness/gen_reads.py, harness/pipeline.py. Stage purity is assumed (supported by C14). Long-read fusion counter restoration is compared but never exercised.",
+        engine="DumpReplay",
+    ),
     "C06": dict(
         technique="TLA+ spec of the pileup with an operational (CIGAR walk, one action per operation) and a declarative (spans) definition related by TLC (Pileup.tla, MC_Pileup); TLC-emitted read pool written to real BAMs and loaded by the real Sample / fed to _parse_read; PileupTrace.tla validation of random read sets and NA10860 windows",
         text="TLC proves operational = declarative, depth conservation, order independence, split invariance, phase-record soundness and quality keeping for every CIGAR of up to 3-4 operations over {M,I,D,S,H,=,X}, flags and 2-3 reads in every order; the real Coverage table, totals, phases and eligibility for the same reads and for random read sets on both strands (plus NA10860 windows) are validated against the spec.",
@@ -119,6 +126,7 @@ CHECKS = {
 }
 
 ENGINES = [
+    dict(name="DumpReplay", path="spec/DumpReplay.tla", serves_properties=["C17"], kind_free_text="TLA+ dump snapshot/restore; mc/MC_DumpReplay, trace/DumpTrace"),
     dict(name="Pileup", path="spec/Pileup.tla", serves_properties=["C06"], kind_free_text="TLA+ pileup (operational + declarative); PileupDefs, mc/MC_Pileup, gen/PileupGen, trace/PileupTrace"),
     dict(name="Depth", path="spec/Depth.tla", serves_properties=["C07"], kind_free_text="TLA+ depth normalisation; mc/MC_Depth, trace/DepthTrace"),
     dict(name="Coords", path="spec/Coords.tla", serves_properties=["C08"], kind_free_text="TLA+ coordinate maps / strand conversion; mc/MC_Coords, gen/CoordsGen, trace/CoordsTrace"),
